@@ -117,6 +117,19 @@ def r11_tail_access_needs_remaining_count(ck, P, rid='C04-R11'):
                             if t.bb.id in blocks or not t.a or f.dominates_block(t.bb.id, hdr):
                                 continue
                             if common.value_arg_roots(f, t.a[0]) & croots:
+                                # a direct test of the count must fail for a count of 0 (nothing left)
+                                cc = f.v(t.a[0]); direct = None
+                                if cc is not None and cc.op == 'icmp' and cc.a[1][0] == 'c':
+                                    y = f.v(cc.a[0]); o_ = cc.a[0]
+                                    while y is not None and y.op in ('sext', 'zext', 'trunc'):
+                                        o_ = y.a[0]; y = f.v(o_)
+                                    if o_[0] == 'v' and o_[1] in cnts:
+                                        k_ = int(cc.a[1][1])
+                                        truth = {'sgt': 0 > k_, 'sge': 0 >= k_, 'slt': 0 < k_, 'sle': 0 <= k_, 'eq': 0 == k_, 'ne': 0 != k_, 'ugt': 0 > k_, 'uge': 0 >= k_, 'ult': 0 < k_, 'ule': 0 <= k_}.get(cc.d['p'])
+                                        if truth is not None:
+                                            direct = (truth == (t.d['succ'][0] == s))     # the access side is taken with nothing left
+                                if direct:
+                                    continue
                                 g = True
                         where = '%s/%s: %s at %s after the loop at block %d' % (un, fn, x.op, x.loc(), hdr)
                         if g:
